@@ -877,6 +877,22 @@ func (u *Unit) noteType(t types.Type) {
 	}
 }
 
+// unspecOrigin names the external function without contract whose (havocked) result v is, if any.
+func (u *Unit) unspecOrigin(v ssa.Value) string {
+	for i := 0; i < 4; i++ {
+		switch t := v.(type) {
+		case *ssa.ChangeInterface:
+			v = t.X
+			continue
+		case *ssa.Extract:
+			v = t.Tuple
+			continue
+		}
+		break
+	}
+	return u.unspecResult[v]
+}
+
 func (u *Unit) typeAssert(st *State, fr *Frame, x *ssa.TypeAssert) {
 	v := u.term(st, fr, x.X)
 	at := x.AssertedType
@@ -901,7 +917,21 @@ func (u *Unit) typeAssert(st *State, fr *Frame, x *ssa.TypeAssert) {
 		return
 	}
 	ord := u.siteOrdinal(x, "typeassert")
-	u.Prove(st, u.obligName("typeassert", fmt.Sprintf("#%d", ord)), "typeassert", u.tagsOr(nil), x.Pos(), "type assertion cannot fail: "+x.String(), ok, nil)
+	// the dynamic type of what an external function without an assumed contract returns is
+	// unknown: an assertion on it cannot be decided (sync.Pool.Get and the like), and that is
+	// no refutation
+	saved, wasDead := st.Weak, u.deadPath
+	callee := u.unspecOrigin(x.X)
+	if callee != "" {
+		st.weaken("type assertion on the result of " + callee + ", for which no contract is assumed (add it to contracts/extern/*.spec)")
+	}
+	proved := u.Prove(st, u.obligName("typeassert", fmt.Sprintf("#%d", ord)), "typeassert", u.tagsOr(nil), x.Pos(), "type assertion cannot fail: "+x.String(), ok, nil)
+	st.Weak = saved
+	if !proved && callee != "" {
+		// undecided, not refuted: the path goes on with the assertion having succeeded
+		u.deadPath = wasDead
+		st.Assume(ok)
+	}
 	fr.Vals[x] = Val{T: val}
 }
 
